@@ -1453,6 +1453,80 @@ impl<K: KeyT> World<K> {
                 }
             }
 
+            // PQ <slot> <n>: n threads query the shared object at once (every key index up to len, every pool
+            // string and every stored string through get where the kind has it, a full iteration); all threads must
+            // see exactly what the calling thread sees (addresses included)
+            "PQ" => {
+                let slot = match self.slot_of(toks.get(1)) {
+                    Some(i) => i,
+                    None => return x(),
+                };
+                let n = match toks.get(2).and_then(|t| t.parse::<usize>().ok()) {
+                    Some(n) if (1..=64).contains(&n) => n,
+                    _ => return x(),
+                };
+                let pool: Vec<&'static str> = self.pool.clone();
+                fn answers<K: KeyT>(obj: &Obj<K>, pool: &[&'static str]) -> Option<Vec<(usize, usize, usize)>> {
+                    let mut out: Vec<(usize, usize, usize)> = Vec::new();
+                    let mut probe_strings: Vec<String> = pool.iter().map(|s| s.to_string()).collect();
+                    macro_rules! resolver_part {
+                        ($b:expr) => {{
+                            let len = $b.len();
+                            for i in 0..=len {
+                                if let Some(k) = K::try_from_usize(i) {
+                                    match $b.try_resolve(&k) {
+                                        Some(s) => { out.push((1, s.as_ptr() as usize, s.len())); probe_strings.push(s.to_string()); }
+                                        None => out.push((0, 0, 0)),
+                                    }
+                                    out.push(($b.contains_key(&k) as usize, 0, 0));
+                                }
+                            }
+                            out.push((2, len, 0));
+                        }};
+                    }
+                    match obj {
+                        Obj::Reader(b) => {
+                            resolver_part!(b);
+                            for (k, s) in b.iter() { out.push((3, k.into_usize(), s.as_ptr() as usize)); }
+                            for s in &probe_strings { out.push((4, b.get(s.as_str()).map_or(usize::MAX, |k| k.into_usize()), 0)); }
+                        }
+                        Obj::Resolver(b) => {
+                            resolver_part!(b);
+                            for s in b.strings() { out.push((3, s.len(), s.as_ptr() as usize)); }
+                        }
+                        Obj::Threaded(b) => {
+                            resolver_part!(b);
+                            let mut items: Vec<(usize, usize)> = b.iter().map(|(k, s)| (k.into_usize(), s.as_ptr() as usize)).collect();
+                            items.sort_unstable();
+                            for (k, p) in items { out.push((3, k, p)); }
+                            for s in &probe_strings { out.push((4, b.get(s.as_str()).map_or(usize::MAX, |k| k.into_usize()), 0)); }
+                        }
+                        _ => return None,
+                    }
+                    Some(out)
+                }
+                let obj = &self.slots[slot].obj;
+                if !matches!(obj, Obj::Reader(_) | Obj::Resolver(_) | Obj::Threaded(_)) {
+                    return x();
+                }
+                let pool_ref = &pool;
+                let res = guard(move || {
+                    let mine = answers(obj, pool_ref);
+                    let all: Vec<Option<Vec<(usize, usize, usize)>>> = std::thread::scope(|sc| {
+                        // the custom key's capacity is a thread-local of the harness: hand it to the query threads
+                        let cap = crate::dyn_cap();
+                        let hs: Vec<_> = (0..n).map(|_| sc.spawn(move || { crate::set_dyn_cap(cap); answers(obj, pool_ref) })).collect();
+                        hs.into_iter().map(|h| h.join().unwrap_or(None)).collect()
+                    });
+                    mine.is_some() && all.iter().all(|a| *a == mine)
+                });
+                match res {
+                    Some(true) => ("T".to_string(), Ev::Nothing),
+                    Some(false) => ("F".to_string(), Ev::Nothing),
+                    None => ("P".to_string(), Ev::Nothing),
+                }
+            }
+
             "FI" => {
                 let threaded = match toks.get(1) {
                     Some(&"r") => false,
